@@ -1,7 +1,7 @@
 """seedsave.py <ID> <name> <property> "<needs>" "<caught by / result>" : copy a verified seeded change into /verif/seeded/<name>/"""
 import json, os, shutil, sys
 sid, name, prop, needs, result = sys.argv[1:6]
-src = f"/tmp/seed_{sid}/SEED"
+src = f"/tmp/{os.environ.get('SEEDPFX', 'seed')}_{sid}/SEED"
 dst = f"/verif/seeded/{name}"
 os.makedirs(dst, exist_ok=True)
 for f in ("patch.diff", "demo.py", "notes.md"):
